@@ -234,3 +234,56 @@ def _mod97_checksum(I, fn, args, kwargs):
     memo[key] = r
     memo[('chars',) + key[1:]] = list(number.chars)
     return r
+
+
+# ---------------------------------------------------------------------------------------------- generic algorithms
+def _same_char(x, y):
+    return (x is y) or (isinstance(x, int) and isinstance(y, int) and x == y) or \
+        (not isinstance(x, int) and not isinstance(y, int) and x.get_id() == y.get_id())
+
+
+def _lemma_contract(modname, transp):
+    """checksum() of a generic algorithm: the body is executed as it is; in addition the C06 theorems are available as
+    its contract: an argument that differs from an earlier one by one same-kind substitution (digit/digit, letter/letter)
+    - or, where C06 proves hT, by swapping two adjacent different symbols - has a different checksum."""
+    from .isets import ISet, DIGITS
+    LET = ISet([(65, 90)])
+
+    @contract(modname, 'checksum')
+    def _ck(I, fn, args, kwargs):
+        import z3
+        ctx = I.ctx
+        number = args[0] if args else kwargs.get('number')
+        if isinstance(number, AbstractStr):
+            number = I.materialise(number)
+        number = I.norm_str(number)
+        r = I.call_func(fn, [number] + list(args[1:]), kwargs)
+        if not isinstance(number, FixedStr) or not is_sym(r):
+            return r
+        extra = tuple(sorted((k, repr(v)) for k, v in kwargs.items())) + tuple(repr(a) for a in args[1:])
+        memo = ctx.__dict__.setdefault('memo', {})
+        tag = 'ck:' + modname
+        for (t, ex, n_), (chars0, r0) in list(memo.items()):
+            if t != tag or ex != extra or n_ != len(number):
+                continue
+            diff = [i for i, (a, b) in enumerate(zip(chars0, number.chars)) if not _same_char(a, b)]
+            if len(diff) == 1:
+                a, b = chars0[diff[0]], number.chars[diff[0]]
+                da, db = I._dom(a), I._dom(b)
+                if (da.subset(DIGITS) and db.subset(DIGITS)) or (da.subset(LET) and db.subset(LET)):
+                    ctx.add(z3.Implies(a != b, r != r0))
+            elif transp and len(diff) == 2 and diff[1] == diff[0] + 1:
+                i, j = diff
+                if _same_char(chars0[i], number.chars[j]) and _same_char(chars0[j], number.chars[i]) and \
+                        all(I._dom(x).subset(DIGITS) for x in (chars0[i], chars0[j])):
+                    ctx.add(z3.Implies(chars0[i] != chars0[j], r != r0))
+        rv = ctx.fresh_int('ck')
+        ctx.add(rv == r)
+        memo[(tag, extra, len(number))] = (list(number.chars), rv)
+        return rv
+    return _ck
+
+
+for _m, _t in (('stdnum.luhn', False), ('stdnum.verhoeff', True), ('stdnum.damm', True), ('stdnum.iso7064.mod_11_2', True),
+               ('stdnum.iso7064.mod_37_2', True), ('stdnum.iso7064.mod_11_10', False), ('stdnum.iso7064.mod_37_36', False)):
+    _lemma_contract(_m, _t)
